@@ -246,7 +246,7 @@ let () =
       let log = String.concat "," (List.map (fun iv ->
           tok_of_bytes iv.iv_req.rp_path ^ ":" ^ view_str iv.iv_body) out.lo_log) in
       let wire = ints_of_bytes out.lo_conn.c_wire in
-      let wstr = if List.length wire <= 4096 then "x" ^ String.concat "" (List.map (Printf.sprintf "%02x") wire)
+      let wstr = if List.length wire <= 131072 then "x" ^ String.concat "" (List.map (Printf.sprintf "%02x") wire)
         else Printf.sprintf "%d:h%016Lx" (List.length wire) (fnv64_ints wire) in
       Printf.printf "log=[%s] wire=%s files=0%s | %s\n" log wstr
         (if out.lo_out_of_fuel then " OUT-OF-FUEL" else "")
